@@ -582,3 +582,9 @@ def execute(params: Any, prefix: List[int]) -> ExecResult:
     if params[1] == "rehist":
         return _execute_rehist(params, prefix)
     return _std(params, prefix)
+
+
+# wave h documentation (what was added to the enumeration; see DESIGN.md 11.0)
+_WAVE_H = "+ headerlist also on a connection upgraded with h2c (header block on stream 3); an unanswered request WITHIN keep_alive_max_requests has its own key (':within-limit')"
+RULE = RULE + " " + _WAVE_H
+BOUNDS_DOC = {k: v + " " + _WAVE_H for k, v in BOUNDS_DOC.items()}
